@@ -1022,7 +1022,10 @@ pub fn generate(check: &str, tier: &str, seed: u64) -> Scenario {
                 if r.one_in(2) {
                     steps.push(CStep::Pause(r.range(1, 50_000)));
                 }
-                // ending
+                // ending. A client never waits without bound for the server to close: whether a
+                // protocol error, a store error or a half-close ends the connection at once is the
+                // server's choice (it may answer with an error and go on); the client closes itself
+                // after a while, and the slot must be free then at the latest
                 match r.below(7) {
                     0 => steps.push(CStep::Close),
                     1 => {
@@ -1034,23 +1037,27 @@ pub fn generate(check: &str, tier: &str, seed: u64) -> Scenario {
                     3 => {
                         steps.push(CStep::SendRaw(b"*1\r\n$4\r\nPING\r\n".to_vec()));
                         steps.push(CStep::Flush);
-                        steps.push(CStep::ReadToEof);
+                        steps.push(CStep::ReadFor(r.range(1_000, 300_000)));
+                        steps.push(CStep::Close);
                     }
                     4 => {
                         steps.push(CStep::ArmPanic);
                         steps.push(CStep::Send(Req::Get(0)));
                         steps.push(CStep::Flush);
-                        steps.push(CStep::ReadToEof);
+                        steps.push(CStep::ReadFor(r.range(1_000, 300_000)));
+                        steps.push(CStep::Close);
                     }
                     5 => {
                         steps.push(CStep::ArmStoreError);
                         steps.push(CStep::Send(Req::Get(0)));
                         steps.push(CStep::Flush);
-                        steps.push(CStep::ReadToEof);
+                        steps.push(CStep::ReadFor(r.range(1_000, 300_000)));
+                        steps.push(CStep::Close);
                     }
                     _ => {
                         steps.push(CStep::HalfClose);
-                        steps.push(CStep::ReadToEof);
+                        steps.push(CStep::ReadFor(r.range(1_000, 300_000)));
+                        steps.push(CStep::Close);
                     }
                 }
                 clients.push(ClientScript { start_us: r.range(0, 30_000), chunk_mode: *cr.pick(&[0, 0, 2]), chunk_n: 16, chunk_pause_us: 0, hostile: false, steps });
